@@ -41,6 +41,12 @@ CLAIMED = {
         "note": "Trusted: z3, symx, C02's affine_transform contract, real dask.delayed. Not covered: interpolation accuracy off-grid; simulate_projection/tilt series/colour.",
         "ref": "DESIGN.md §4 C14",
     },
+    "C10": {
+        "text": "(i) lazily declared shapes: the shape construct_landscape declares (real code on stand-ins) is proved equal to the shape the real model.landscape() returns for ZNCC/NCC/PCC/FSC with and without up-sampling, max_shifts symbolic on one axis of a 6^3 box; loading tasks declare the requested box. "
+                "(ii) thread interleavings of the shared TemplateMaskCache: get() is translated from CPython bytecode to shared-dict steps and all schedules of 2 and 3 threads (switch between any two bytecodes) are bounded-model-checked by z3 (QF_BV): no thread raises, every thread gets the stored value; counterexample schedules are replayed with an opcode-level deterministic scheduler.",
+        "note": "Trusted: z3, symx, the CPython dict model in checks/c10_cache.py, HybridNdi. NOT covered (stated): equality of results across dask schedulers / worker counts / tomogram chunkings and numpy-vs-dask inputs - dask's own execution semantics are not encoded, so that part of the statement is outside this check.",
+        "ref": "DESIGN.md §4 C10",
+    },
 }
 
 NOT_APPLICABLE = {
